@@ -718,6 +718,8 @@ def gen_mixed_portfolio(rng, kinds=ALL_KINDS, g=None, n_assets=(2, 6), n_nodes=(
             assets.append({'type': 'SimpleContract', 'name': 'mkt_' + heat, 'nodes': [heat], 'price': key, 'min_cap': -30. * f, 'max_cap': 30. * f, 'extra_costs': 0.3, 'wacc': 0.})
             assets.append({'type': 'LinkedAsset', 'name': 'linked%d' % j, 'nodes': [nd, heat], 'assets': [a1, a2], 'asset1_variable': [a2['name'], 'disp', nd],
                            'asset2_variable': [a1['name'], 'bool_on', None], 'time_back': r2(st_ * pick(rng, [0, 0, 1])), 'time_forward': r2(st_ * pick(rng, [0, 0, 1]))})
+            if rng.random() < 0.4:
+                assets[-1]['asset2_time_already_running'] = r2(st_ * pick(rng, [1, 2, 3]))
             if window and rng.random() < 0.35:
                 s_, e_, _k = gen_window(rng, g, kinds=['inside', 'inside', 'straddle_start', 'straddle_end', 'start_only', 'end_only'])      # a lifetime of its own
                 assets[-1]['start'] = s_; assets[-1]['end'] = e_
